@@ -14,6 +14,7 @@ import (
 	"strconv"
 	"strings"
 	"sync"
+	"sync/atomic"
 	"testing"
 	"time"
 
@@ -176,6 +177,17 @@ func TestVerifC11Child(t *testing.T) {
 	p := strings.Split(spec, ":")
 	start, _ := strconv.Atoi(p[1])
 	end, _ := strconv.Atoi(p[2])
+	if p[0] == "batch" {
+		out := bufio.NewWriter(os.Stdout)
+		cur := make(chan int, 1)
+		go c11Watchdog(cur)
+		if err := c11BatchChild(start, end, out, cur); err != nil {
+			t.Fatal(err)
+		}
+		fmt.Fprintf(out, "END\n")
+		out.Flush()
+		return
+	}
 	var base *c11Base
 	for _, b := range c11Bases() {
 		if b.name == p[0] {
@@ -200,20 +212,7 @@ func TestVerifC11Child(t *testing.T) {
 	}
 	out := bufio.NewWriter(os.Stdout)
 	cur := make(chan int, 1)
-	go func() { // watchdog: a variant that takes longer than 60 s is a hang
-		last, since := -1, time.Now()
-		for {
-			select {
-			case i := <-cur:
-				last, since = i, time.Now()
-			case <-time.After(5 * time.Second):
-				if last >= 0 && time.Since(since) > 60*time.Second {
-					fmt.Fprintf(os.Stdout, "\nHANG %d\n", last)
-					os.Exit(3)
-				}
-			}
-		}
-	}()
+	go c11Watchdog(cur)
 	for i := start; i < end; i++ {
 		fmt.Fprintf(out, "START %d\n", i)
 		out.Flush()
@@ -231,6 +230,22 @@ func TestVerifC11Child(t *testing.T) {
 	}
 	fmt.Fprintf(out, "END\n")
 	out.Flush()
+}
+
+// c11Watchdog: a variant that takes longer than 60 s is a hang
+func c11Watchdog(cur <-chan int) {
+	last, since := -1, time.Now()
+	for {
+		select {
+		case i := <-cur:
+			last, since = i, time.Now()
+		case <-time.After(5 * time.Second):
+			if last >= 0 && time.Since(since) > 60*time.Second {
+				fmt.Fprintf(os.Stdout, "\nHANG %d\n", last)
+				os.Exit(3)
+			}
+		}
+	}
 }
 
 type c11Outcome struct {
@@ -376,6 +391,52 @@ func TestVerifC11(t *testing.T) {
 			}
 		})
 	}
+	// family "batch": several unreadable shards in one load call (see c11batch_test.go)
+	{
+		total := c11BatchTotal()
+		r.Set("variants_batch", total)
+		const chunk = 500
+		var ranges [][2]int
+		for s := 0; s < total; s += chunk {
+			ranges = append(ranges, [2]int{s, min(s+chunk, total)})
+		}
+		var hangs atomic.Int64
+		mc.ParallelFor(len(ranges), func(i int) {
+			if r.Expired() {
+				r.Incomplete("budget exhausted in family batch")
+				return
+			}
+			if hangs.Load() >= 6 {
+				r.Incomplete("family batch: stopped after 6 confirmed dying/hanging batches (each costs two 60 s watchdog periods)")
+				return
+			}
+			rg := ranges[i]
+			oc := c11RunRange("batch", rg[0], rg[1], func() bool { return r.Expired() || hangs.Load() >= 6 })
+			r.Eval(oc.count)
+			if oc.cut {
+				r.Incomplete("budget exhausted inside range %v of family batch", rg)
+			}
+			mu.Lock()
+			defer mu.Unlock()
+			for vi, msg := range oc.bad {
+				r.Violation(fmt.Sprintf("batch %s: %s", c11BatchDesc(vi), msg), fmt.Sprintf("one loader.load call with keys %s (GOMAXPROCS=2): %s", c11BatchDesc(vi), msg), map[string]any{"case": fmt.Sprintf("batch:%d", vi)})
+			}
+			for vi, msg := range oc.died {
+				again := c11RunRange("batch", vi, vi+1, nil)
+				if len(again.died) == 0 {
+					r.Note("batch %s killed a child once but not when re-run alone: %s", c11BatchDesc(vi), msg)
+					continue
+				}
+				short := msg
+				if len(short) > 90 {
+					short = short[:90]
+				}
+				hangs.Add(1)
+				r.Violation(fmt.Sprintf("batch %s: serving process dies or hangs: %s", c11BatchDesc(vi), short), fmt.Sprintf("one loader.load call with keys %s (GOMAXPROCS=2): the process died or did not return within 60 s: %s", c11BatchDesc(vi), msg), map[string]any{"case": fmt.Sprintf("batch:%d", vi)})
+			}
+			r.Nontrivial(fmt.Sprintf("batch:%d", rg[0]))
+		})
+	}
 	r.Assume("files are not modified after being loaded; a variant that keeps a child busy for 60 s is counted as a hang (µs-scale work otherwise)")
-	r.Finish("case = (base shard simple|symbols|compound, variant): every truncation, every single-bit flip and every byte set to 00/7f/80/ff (quick: substitutions for the simple shard only, bit flips of the other shards only in their last 600 bytes: TOC and metadata); each variant is loaded beside a healthy shard through loader.load and 6 queries × 2 modes + List run on the shardedSearcher; oracle: process survives, calls return, healthy repository's results unchanged")
+	r.Finish("case = (base shard simple|symbols|compound, variant): every truncation, every single-bit flip and every byte set to 00/7f/80/ff (quick: substitutions for the simple shard only, bit flips of the other shards only in their last 600 bytes: TOC and metadata); each variant is loaded beside a healthy shard through loader.load and 6 queries × 2 modes + List run on the shardedSearcher; oracle: process survives, calls return, healthy repository's results unchanged; family batch: every sequence of <= 5 keys over {healthy, truncated, empty, garbage, cut TOC} in one load call with GOMAXPROCS=2: load returns and exactly the healthy shards are served")
 }
